@@ -40,7 +40,8 @@ DH = (
 DY = ((("p", 1), ("q", 7)), (("p", 2), ("q", 2)), (("p", 3), ("q", 7)))
 WSPEC = (("DM", "Base", DM), ("DH", "Holder", DH), ("DY", "Item", DY))
 MEMBER_KINDS = (("cls", "Base", ("k", 1)), ("cls", "Base", ("k", 2)), ("cls", "Sub", ("k", 1)), ("cls", "USub", ("k", 1)),
-                ("cls", "Hand", ("k", 1)), ("raw", "junk"), ("raw", None), ("cls", "Item", ("p", 1)))
+                ("cls", "Hand", ("k", 1)), ("raw", "junk"), ("raw", None), ("cls", "Item", ("p", 1)),
+                ("cls", "FalsyBase", ("k", 1)))
 FIELDS = {"Base": ("k", "v"), "Sub": ("k", "v"), "USub": ("k", "v", "w"), "Hand": ("k", "v"), "Part": ("k", "v"),
           "Rev": ("k", "v")}
 # the order in which the constructor takes positional values (Rev's __init__ is (v, k); Part's is (k, v) although an
